@@ -21,7 +21,7 @@ import json
 import gens
 import vlib
 import yanggen
-from lyxlib import (Script, results, rc, PARSE_STRICT, VAL_PRESENT, DUP_RECURSIVE, DUP_NO_META, DUP_WITH_PARENTS,
+from lyxlib import (Script, results, rc, PARSE_STRICT, PARSE_ONLY, PARSE_OPAQ, VAL_PRESENT, DUP_RECURSIVE, DUP_NO_META, DUP_WITH_PARENTS,
                     DUP_WITH_FLAGS, MERGE_DESTRUCT, MERGE_DEFAULTS, MERGE_WITH_FLAGS)
 from props.oracles import Oracle, crashed
 from vlib import hexs, unhex
@@ -44,6 +44,28 @@ class SAny(yanggen.SNode):
         if not self.config and cfg_parent:
             s += " config false;"
         return s + self.common() + " }\n"
+
+
+class SRaw(yanggen.SNode):
+    """not a schema node: an instance of it is printed as the raw XML text in its value (elements the module does not
+    define; parsed with LYD_PARSE_OPAQ they become opaque nodes created by the PARSER, with value prefix data)"""
+    kind = "rawxml"
+
+
+def add_raw(rng, m, dnodes, depth=0):
+    for d in dnodes:
+        if d.schema.kind in ("container", "list") and rng.random() < 0.5:
+            add_raw(rng, m, d.children, depth + 1)
+    if rng.random() < (0.8 if depth == 0 else 0.4):
+        for nm in rng.sample(["u1", "u2", "u3"], rng.randrange(1, 3)):
+            r = SRaw(nm)
+            r.module = m
+            xml = '<%s xmlns="%s" xmlns:p="urn:p"%s>%s</%s>' % (
+                nm, m.ns, (' p:at="%s"' % word(rng)) if rng.random() < 0.5 else "",
+                # (no prefixed value "p:x": lyd_compare_single() is not reflexive for it - reported, not a C14 matter - and
+                # the invariant checker compares nodes)
+                ("<in>%s</in>" % word(rng)) if rng.random() < 0.4 else word(rng), nm)
+            dnodes.append(yanggen.DNode(r, value=xml))
 
 
 def inject_any(rng, mod, nodes, config, parent, cnt, p):
@@ -174,7 +196,9 @@ def to_xml(forest, parent_mod=None):
             attrs += ' xmlns="%s"' % s.module.ns
         for mm, mn, mv in n.meta:
             attrs += ' xmlns:%s="urn:verif:%s" %s:%s="%s"' % (mm, mm, mm, mn, yanggen.xml_attr(mv))
-        if s.kind in ("anydata", "anyxml"):
+        if s.kind == "rawxml":
+            out.append(n.value)
+        elif s.kind in ("anydata", "anyxml"):
             out.append("<%s%s>%s</%s>" % (s.name, attrs, n.value, s.name))
         elif s.kind in ("leaf", "leaf-list"):
             if isinstance(s.type, yanggen.TEmpty) or n.value == "":
@@ -546,9 +570,11 @@ def doc_of(m, forest, rpc):
     return to_xml(forest)
 
 
-def parse_cmd(s, c, t, doc, rpc):
+def parse_cmd(s, c, t, doc, rpc, opaq=False):
     if rpc:
         s.add("parseop", "c%d" % c, "t%d" % t, "x", "r", hexs(doc))
+    elif opaq:
+        s.add("parse", "c%d" % c, "t%d" % t, "x", PARSE_ONLY | PARSE_OPAQ, 0, hexs(doc))
     else:
         s.add("parse", "c%d" % c, "t%d" % t, "x", PARSE_STRICT, VAL_PRESENT, hexs(doc))
 
@@ -694,15 +720,20 @@ class DupMatrix(Oracle):
             if i % 4:
                 add_meta(rng, f0, 0.25)
                 add_meta(rng, f1, 0.15)
+            opaq = (i % 5 == 4) and not rpc
+            if opaq:
+                # not validated trees with opaque nodes created by the parser
+                add_raw(rng, m, f0)
+                add_raw(rng, m, f1)
             s = Script()
             s.add("#S", hexs(json.dumps(schema_desc(m), separators=(",", ":"))))
             s.ctx(0)
             s.mod(m.yang(), 0)
             s.ctx(1)
             s.mod(m.yang(), 1)
-            parse_cmd(s, 0, 0, doc_of(m, f0, rpc), rpc)
-            parse_cmd(s, 0, 1, doc_of(m, f1, rpc), rpc)
-            parse_cmd(s, 1, 2, doc_of(m, f1, rpc), rpc)
+            parse_cmd(s, 0, 0, doc_of(m, f0, rpc), rpc, opaq)
+            parse_cmd(s, 0, 1, doc_of(m, f1, rpc), rpc, opaq)
+            parse_cmd(s, 1, 2, doc_of(m, f1, rpc), rpc, opaq)
             n0 = len(s.cmds)
             s.add("xdump", "t0")
             s.add("xdump", "t1")
